@@ -394,6 +394,89 @@ theorem get_neighbors_sound (g : GridShape) {x y z : Int} (hc : inGrid g x y z) 
       | omega
       | (obtain ⟨hp, hq⟩ := hcond; simp only [hp, true_and, and_true]; omega)
 
+/-! ### completeness of `get_neighbors` -/
+
+private theorem twelve_split (D1 D2 D3 D4 D5 D6 D7 D8 D9 D10 D11 D12 R0 R1 R2 R3 R4 R5 : Prop)
+    (h0 : D4 ∨ D10 ↔ R0) (h1 : D1 ∨ D7 ↔ R1) (h2 : D5 ∨ D11 ↔ R2) (h3 : D2 ∨ D8 ↔ R3) (h4 : D6 ∨ D12 ↔ R4) (h5 : D3 ∨ D9 ↔ R5) :
+    (D1 ∨ D2 ∨ D3 ∨ D4 ∨ D5 ∨ D6 ∨ D7 ∨ D8 ∨ D9 ∨ D10 ∨ D11 ∨ D12) ↔ (R0 ∨ R1 ∨ R2 ∨ R3 ∨ R4 ∨ R5) := by
+  rw [← h0, ← h1, ← h2, ← h3, ← h4, ← h5]; exact Iff.of_eq (by ac_rfl)
+
+/-- coordinate level: the rules of `get_neighbors` that fire name exactly the face neighbours -/
+theorem get_neighbors_coords_iff (g : GridShape) {x y z xj yj zj : Int} (hc : inGrid g x y z) (hj : inGrid g xj yj zj) :
+    (∃ r ∈ getNbrRules g.w g.h g.d g.px g.py g.pz x y z, r.1 = true ∧ r.2 = (xj, yj, zj)) ↔
+      faceAdj g (x, y, z) (xj, yj, zj) := by
+  rw [faceAdj_iff_reach g hc hj, exists_lt_six, get_neighbors_rules]
+  simp only [List.mem_cons, List.not_mem_nil, or_false, or_and_right, exists_or, exists_eq_left]
+  obtain ⟨⟨hx0, hx1⟩, ⟨hy0, hy1⟩, ⟨hz0, hz1⟩⟩ := hc
+  obtain ⟨⟨jx0, jx1⟩, ⟨jy0, jy1⟩, ⟨jz0, jz1⟩⟩ := hj
+  apply twelve_split <;>
+    simp only [reach, Prod.mk.injEq, decide_eq_true_eq, Bool.and_eq_true, beq_iff_eq]
+  · cases g.px <;> simp <;> omega
+  · cases g.px <;> simp <;> omega
+  · cases g.py <;> simp <;> omega
+  · cases g.py <;> simp <;> omega
+  · cases g.pz <;> simp <;> omega
+  · cases g.pz <;> simp <;> omega
+
+theorem seqRes_map_ok {α β} (f : α → Res β) (gf : α → β) : ∀ (l : List α), (∀ a ∈ l, f a = .ok (gf a)) →
+    seqRes (l.map f) = .ok (l.map gf)
+  | [], _ => rfl
+  | a :: rest, h => by
+    simp only [List.map_cons, seqRes, h a (by simp), seqRes_map_ok f gf rest (fun b hb => h b (by simp [hb]))]
+
+theorem coordsOf_inGrid {g : GridShape} (hv : g.valid = true) {i : Int} (hi : 0 ≤ i ∧ i < (g.w : Int) * g.h * g.d) :
+    inGrid g (coordsOf g i).1 (coordsOf g i).2.1 (coordsOf g i).2.2 ∧
+    cellOf g (coordsOf g i).1 (coordsOf g i).2.1 (coordsOf g i).2.2 = i := by
+  obtain ⟨hw, hh, _⟩ := GridShape.valid_pos hv
+  obtain ⟨hx, hy, hz, hsum⟩ := encode_decode hw hh hi.1 hi.2
+  refine ⟨⟨hx, hy, hz⟩, ?_⟩
+  have e : ∀ X Y Z : Int, Z * ↑g.w * ↑g.h + Y * ↑g.w + X = X + Y * ↑g.w + Z * (↑g.w * ↑g.h) := fun _ _ _ => by ring
+  simp only [cellOf, coordsOf, e]; exact hsum
+
+/-- `get_cell_coordinates(i)` returns the coordinates of the Spec -/
+theorem pyCoords_eq {g : GridShape} (hv : g.valid = true) {i : Int} (hi : 0 ≤ i ∧ i < (g.w : Int) * g.h * g.d) :
+    pyCoords g i = .ok (coordsOf g i) := by
+  obtain ⟨hin, hcell⟩ := coordsOf_inGrid hv hi
+  have := coords_index g hin
+  rw [hcell] at this
+  exact this
+
+theorem pyCellIndex_num {g : GridShape} {i : Int} (hi : 0 ≤ i ∧ i < (g.w : Int) * g.h * g.d) :
+    pyCellIndex g (.num i) = .ok i := by
+  have : pyWithinBounds g (.num i) = true := (within_bounds_iff g _).2 hi
+  simp only [pyCellIndex, this, Bool.or_true, if_true, cellIndexNum]
+
+/-- **get_neighbors_iff** — `get_neighbors(i)` succeeds and names exactly the face neighbours of cell `i` -/
+theorem get_neighbors_iff {g : GridShape} (hv : g.valid = true) {i j : Int}
+    (hi : 0 ≤ i ∧ i < (g.w : Int) * g.h * g.d) (hj : 0 ≤ j ∧ j < (g.w : Int) * g.h * g.d) :
+    ∃ l, pyGetNeighbors g (.num i) = .ok l ∧ (j ∈ l ↔ faceAdj g (coordsOf g i) (coordsOf g j)) := by
+  obtain ⟨ci, hci⟩ := coordsOf_inGrid hv hi
+  obtain ⟨cj, hcj⟩ := coordsOf_inGrid hv hj
+  generalize coordsOf g j = c2 at cj hcj ⊢
+  obtain ⟨xj, yj, zj⟩ := c2
+  have hc := pyCoords_eq hv hi
+  generalize coordsOf g i = c1 at ci hci hc ⊢
+  obtain ⟨x, y, z⟩ := c1
+  let rules := (getNbrRules g.w g.h g.d g.px g.py g.pz x y z).filter (·.1)
+  have hr : ∀ r ∈ rules, pyCellIndex g (.arr r.2.1 r.2.2.1 r.2.2.2) = .ok (cellOf g r.2.1 r.2.2.1 r.2.2.2) := by
+    intro r hr
+    obtain ⟨hm, hcnd⟩ := List.mem_filter.1 hr
+    exact (index_formula g (get_neighbors_sound g ci r hm hcnd).1).1
+  refine ⟨rules.map fun r => cellOf g r.2.1 r.2.2.1 r.2.2.2, ?_, ?_⟩
+  · simp only [pyGetNeighbors, pyCellIndex_num hi, hc]
+    exact seqRes_map_ok _ _ rules hr
+  · rw [← get_neighbors_coords_iff g ci cj]
+    simp only [List.mem_map, rules, List.mem_filter]
+    constructor
+    · rintro ⟨r, ⟨hm, hcnd⟩, he⟩
+      refine ⟨r, hm, hcnd, ?_⟩
+      have hin := (get_neighbors_sound g ci r hm hcnd).1
+      rw [← hcj] at he
+      obtain ⟨e1, e2, e3⟩ := index_injective g hin cj he
+      exact Prod.ext e1 (Prod.ext e2 e3)
+    · rintro ⟨r, hm, hcnd, he⟩
+      exact ⟨r, ⟨hm, hcnd⟩, by rw [he]; exact hcj⟩
+
 /-- the kinetics loop: six unit shifts, wrapped like the engine does (Python `%` = C++ `%` on the values that
 occur) but only on a periodic axis longer than one cell -/
 theorem kinetics_rules (x y z : Int) :
@@ -405,6 +488,170 @@ theorem kinetics_rules (x y z : Int) :
   refine ⟨rfl, fun _ _ => ⟨rfl, rfl, rfl⟩, rfl, fun n c hn hc => ?_⟩
   simp only [kinWrap0, kinWrap1, kinWrap2, wrapAxis0, wrapAxis1, wrapAxis2,
     Int.fmod_eq_emod_of_nonneg _ (Int.le_of_lt hn), Int.tmod_eq_emod_of_nonneg hc, and_self]
+
+/-! ### completeness of the kinetics enumeration -/
+
+/-- one coordinate of a candidate of the kinetics loop: shifted, wrapped only on a periodic axis longer than one cell -/
+def kstep (per : Bool) (n c δ : Int) : Int := if (per && decide (n > 1)) = true then (n + (c + δ)) % n else c + δ
+
+theorem kstep_zero {per : Bool} {n c : Int} (hc : 0 ≤ c ∧ c < n) : kstep per n c 0 = c := by
+  unfold kstep; split
+  · rw [Int.add_zero, wrap_same hc.1 hc.2]
+  · omega
+
+theorem kstep_plus_iff {per : Bool} {n c b : Int} (hc : 0 ≤ c ∧ c < n) (hb : 0 ≤ b ∧ b < n) :
+    b = kstep per n c 1 ↔ ((b = c + 1 ∧ b < n) ∨ (per = true ∧ c = n - 1 ∧ b = 0)) ∧ c ≠ b := by
+  unfold kstep
+  cases per
+  · simp; omega
+  · by_cases hn : n > 1
+    · simp only [Bool.true_and, hn, decide_true, if_true, true_and, wrap_succ hc.1 hc.2]; split <;> omega
+    · simp [hn]; omega
+
+theorem kstep_minus_iff {per : Bool} {n c b : Int} (hc : 0 ≤ c ∧ c < n) (hb : 0 ≤ b ∧ b < n) :
+    b = kstep per n c (-1) ↔ ((c = b + 1 ∧ 0 ≤ b) ∨ (per = true ∧ c = 0 ∧ b = n - 1)) ∧ c ≠ b := by
+  unfold kstep
+  cases per
+  · simp; omega
+  · by_cases hn : n > 1
+    · simp only [Bool.true_and, hn, decide_true, if_true, true_and, show c + -1 = c - 1 by ring, wrap_pred hc.1 hc.2]; split <;> omega
+    · simp [hn]; omega
+
+/-- the six candidates of the kinetics loop for an in-grid cell -/
+theorem kinCandidates_eq (g : GridShape) {x y z : Int} (hc : inGrid g x y z) :
+    kinCandidates g x y z = [(kstep g.px g.w x 1, y, z), (kstep g.px g.w x (-1), y, z), (x, kstep g.py g.h y 1, z),
+      (x, kstep g.py g.h y (-1), z), (x, y, kstep g.pz g.d z 1), (x, y, kstep g.pz g.d z (-1))] := by
+  obtain ⟨hx, hy, hz⟩ := hc
+  have ex := kstep_zero (per := g.px) hx
+  have ey := kstep_zero (per := g.py) hy
+  have ez := kstep_zero (per := g.pz) hz
+  have fw : ∀ c : Int, Int.fmod ((g.w : Int) + c) g.w = ((g.w : Int) + c) % g.w := fun c => Int.fmod_eq_emod_of_nonneg _ (by omega)
+  have fh : ∀ c : Int, Int.fmod ((g.h : Int) + c) g.h = ((g.h : Int) + c) % g.h := fun c => Int.fmod_eq_emod_of_nonneg _ (by omega)
+  have fd : ∀ c : Int, Int.fmod ((g.d : Int) + c) g.d = ((g.d : Int) + c) % g.d := fun c => Int.fmod_eq_emod_of_nonneg _ (by omega)
+  simp only [kstep, Int.add_zero] at ex ey ez
+  simp only [kinCandidates, kinDeltas, List.map_cons, List.map_nil, kinWrapCond0, kinWrapCond1, kinWrapCond2, kinWrap0, kinWrap1,
+    kinWrap2, fw, fh, fd, kstep, ex, ey, ez, Int.sub_eq_add_neg]
+
+private theorem six_and (K0 K1 K2 K3 K4 K5 R0 R1 R2 R3 R4 R5 N : Prop)
+    (h0 : K0 ↔ R0 ∧ N) (h1 : K1 ↔ R1 ∧ N) (h2 : K2 ↔ R2 ∧ N) (h3 : K3 ↔ R3 ∧ N) (h4 : K4 ↔ R4 ∧ N) (h5 : K5 ↔ R5 ∧ N) :
+    (K0 ∨ K1 ∨ K2 ∨ K3 ∨ K4 ∨ K5) ↔ (R0 ∨ R1 ∨ R2 ∨ R3 ∨ R4 ∨ R5) ∧ N := by
+  rw [h0, h1, h2, h3, h4, h5]; simp only [or_and_right]
+
+/-- coordinate level: the candidates of the kinetics loop that lie in the grid are exactly the face neighbours
+other than the cell itself -/
+theorem kinetics_coords_iff (g : GridShape) {x y z xj yj zj : Int} (hc : inGrid g x y z) (hj : inGrid g xj yj zj) :
+    (xj, yj, zj) ∈ kinCandidates g x y z ↔ faceAdj g (x, y, z) (xj, yj, zj) ∧ (x, y, z) ≠ (xj, yj, zj) := by
+  rw [faceAdj_iff_reach g hc hj, exists_lt_six, kinCandidates_eq g hc]
+  simp only [List.mem_cons, Prod.mk.injEq, List.not_mem_nil, or_false]
+  obtain ⟨hx, hy, hz⟩ := hc
+  obtain ⟨jx, jy, jz⟩ := hj
+  apply six_and <;> simp only [kstep_plus_iff hx jx, kstep_minus_iff hx jx, kstep_plus_iff hy jy, kstep_minus_iff hy jy,
+    kstep_plus_iff hz jz, kstep_minus_iff hz jz, reach, ne_eq, Prod.mk.injEq]
+  · cases g.px <;> simp <;> omega
+  · cases g.px <;> simp <;> omega
+  · cases g.py <;> simp <;> omega
+  · cases g.py <;> simp <;> omega
+  · cases g.pz <;> simp <;> omega
+  · cases g.pz <;> simp <;> omega
+
+theorem coordsOf_cellOf {g : GridShape} {x y z : Int} (hc : inGrid g x y z) : coordsOf g (cellOf g x y z) = (x, y, z) := by
+  have hw : (0 : Int) < g.w := by have := hc.1; omega
+  have e : cellOf g x y z = x + y * g.w + z * (g.w * g.h) := by unfold cellOf; ring
+  obtain ⟨d1, d2, d3⟩ := decode_encode (z := z) hw hc.1.1 hc.1.2 hc.2.1.1 hc.2.1.2
+  simp only [coordsOf, e, d1, d2, d3]
+
+theorem cellOf_range {g : GridShape} {x y z : Int} (hc : inGrid g x y z) :
+    0 ≤ cellOf g x y z ∧ cellOf g x y z < (g.w : Int) * g.h * g.d := by
+  have e : cellOf g x y z = x + y * g.w + z * (g.w * g.h) := by unfold cellOf; ring
+  rw [e]; exact encode_range hc.1.1 hc.1.2 hc.2.1.1 hc.2.1.2 hc.2.2.1 hc.2.2.2
+
+/-- `are_neighbors(i, j)` on two cell indices = the distance test on their coordinates -/
+theorem pyAreNeighbors_num {g : GridShape} (hv : g.valid = true) {i j : Int}
+    (hi : 0 ≤ i ∧ i < (g.w : Int) * g.h * g.d) (hj : 0 ≤ j ∧ j < (g.w : Int) * g.h * g.d) :
+    pyAreNeighbors g (.num i) (.num j) = .ok (areNbrCoords g (coordsOf g i) (coordsOf g j)) := by
+  have b1 : pyWithinBounds g (.num i) = true := (within_bounds_iff g _).2 hi
+  have b2 : pyWithinBounds g (.num j) = true := (within_bounds_iff g _).2 hj
+  simp only [pyAreNeighbors, b1, b2, Bool.not_true, Bool.and_false, Bool.false_eq_true, if_false, pyCellIndex_num hi, pyCellIndex_num hj,
+    pyCoords_eq hv hi, pyCoords_eq hv hj]
+
+/-- **kinetics_enum_iff** — the neighbour loop of `_compute_dspeciesdt_grid` raises for no cell and adds the diffusion
+terms of exactly the cells `are_neighbors` accepts (= the face neighbours other than the cell itself) -/
+theorem kinetics_enum_iff {g : GridShape} (hv : g.valid = true) {i j : Int}
+    (hi : 0 ≤ i ∧ i < (g.w : Int) * g.h * g.d) (hj : 0 ≤ j ∧ j < (g.w : Int) * g.h * g.d) :
+    ∃ l, kinNeighbors g (.num i) = .ok l ∧
+      (j ∈ l ↔ areNbrCoords g (coordsOf g i) (coordsOf g j) = true) ∧
+      (j ∈ l ↔ faceAdj g (coordsOf g i) (coordsOf g j) ∧ i ≠ j) := by
+  obtain ⟨ci, hci⟩ := coordsOf_inGrid hv hi
+  obtain ⟨cj, hcj⟩ := coordsOf_inGrid hv hj
+  have hc := pyCoords_eq hv hi
+  have hguard : kinBoundsGuard = true := rfl
+  generalize hcoi : coordsOf g i = c1 at ci hci hc ⊢
+  obtain ⟨x, y, z⟩ := c1
+  let L := (kinCandidates g x y z).filter fun c => (!kinBoundsGuard) || withinBoundsArr g.w g.h g.d c.1 c.2.1 c.2.2
+  have hL : ∀ c ∈ L, inGrid g c.1 c.2.1 c.2.2 ∧ c ∈ kinCandidates g x y z := by
+    intro c hcL
+    obtain ⟨hm, hb⟩ := List.mem_filter.1 hcL
+    simp only [hguard, Bool.not_true, Bool.false_or] at hb
+    exact ⟨(bounds_arr_iff _ _ _ _ _ _).1 hb, hm⟩
+  have hadj : ∀ c ∈ L, areNbrCoords g (x, y, z) c = true := by
+    intro c hcL
+    obtain ⟨hin, hm⟩ := hL c hcL
+    exact (are_neighbors_iff g ci hin).2 ((kinetics_coords_iff g ci hin).1 hm)
+  have hf : ∀ c ∈ L, (match pyCellIndex g (.arr c.1 c.2.1 c.2.2) with
+      | .error e => .error e
+      | .ok j' => match pyCellIndex g (.arr x y z) with
+        | .error e => .error e
+        | .ok i' => match pyAreNeighbors g (.num i') (.num j') with
+          | .error e => .error e
+          | .ok true => .ok j'
+          | .ok false => .error .badValue : Res Int) = .ok (cellOf g c.1 c.2.1 c.2.2) := by
+    intro c hcL
+    obtain ⟨hin, _⟩ := hL c hcL
+    have e1 := (index_formula g hin).1
+    have e2 := (index_formula g ci).1
+    rw [hci] at e2
+    have e3 := pyAreNeighbors_num hv hi (cellOf_range hin)
+    rw [hcoi, coordsOf_cellOf hin, hadj c hcL] at e3
+    simp only [e1, e2, e3]
+  refine ⟨L.map fun c => cellOf g c.1 c.2.1 c.2.2, ?_, ?_⟩
+  · simp only [kinNeighbors, pyCellIndex_num hi, hc]
+    exact seqRes_map_ok _ _ L hf
+  · have hmem : j ∈ L.map (fun c => cellOf g c.1 c.2.1 c.2.2) ↔ coordsOf g j ∈ kinCandidates g x y z := by
+      simp only [List.mem_map]
+      constructor
+      · rintro ⟨c, hcL, he⟩
+        obtain ⟨hin, hm⟩ := hL c hcL
+        rw [← hcj] at he
+        obtain ⟨e1, e2, e3⟩ := index_injective g hin cj he
+        have : c = coordsOf g j := Prod.ext e1 (Prod.ext e2 e3)
+        rw [← this]; exact hm
+      · intro hm
+        refine ⟨coordsOf g j, List.mem_filter.2 ⟨hm, ?_⟩, hcj⟩
+        simp only [hguard, Bool.not_true, Bool.false_or]
+        exact (bounds_arr_iff _ _ _ _ _ _).2 cj
+    have hk := kinetics_coords_iff g ci cj
+    have hne : (x, y, z) ≠ coordsOf g j ↔ i ≠ j := by
+      constructor
+      · intro h e; subst e; exact h hcoi.symm
+      · intro h e; apply h; rw [← hci, ← hcj, ← e]
+    constructor
+    · rw [hmem, hk, are_neighbors_iff g ci cj]
+    · rw [hmem, hk, hne]
+
+/-- `get_neighbors(i)` and `are_neighbors(i, ·)` agree on every other cell -/
+theorem get_neighbors_iff_are_neighbors {g : GridShape} (hv : g.valid = true) {i j : Int}
+    (hi : 0 ≤ i ∧ i < (g.w : Int) * g.h * g.d) (hj : 0 ≤ j ∧ j < (g.w : Int) * g.h * g.d) (hne : i ≠ j) :
+    ∃ l, pyGetNeighbors g (.num i) = .ok l ∧ (j ∈ l ↔ pyAreNeighbors g (.num i) (.num j) = .ok true) := by
+  obtain ⟨l, hl, hm⟩ := get_neighbors_iff hv hi hj
+  obtain ⟨ci, hci⟩ := coordsOf_inGrid hv hi
+  obtain ⟨cj, hcj⟩ := coordsOf_inGrid hv hj
+  refine ⟨l, hl, ?_⟩
+  rw [hm, pyAreNeighbors_num hv hi hj]
+  have hne' : coordsOf g i ≠ coordsOf g j := fun e => hne (by rw [← hci, ← hcj, e])
+  have := are_neighbors_iff g ci cj
+  constructor
+  · intro h; rw [this.2 ⟨h, hne'⟩]
+  · intro h; injection h with h; exact (this.1 h).1
 
 /-- `compute_diffusion_rates` refuses non-neighbours through `are_neighbors` (grid) / `get_edge` (graph) -/
 theorem diffusion_rates_neighbour_tests :
